@@ -6,8 +6,8 @@ import numpy as rnp
 EXPLANATION = ('C13: Spectrum binary operators on an enumerated family of exact-rational wavelength grids (identical, nested, partially overlapping, '
                'touching, disjoint; uniform and non-uniform) with symbolic values, fill value and scalar/vector operands, in every pair of wavelength units; '
                'scipy.interpolate.interp1d(kind=linear) is modelled by its piecewise-linear definition.')
-BOUNDS = {'quick': 'grid pairs of length 2..4 from the enumerated family (14 pairs) x {+,-,*,/} (and ** with exponents 2, 3) x sampling {min,left,right,float} x unit pairs (sampled 220 configs); scalar and vector operands',
-          'thorough': 'grids of length up to 6, all 16 unit pairs, 1500 configs'}
+BOUNDS = {'quick': 'grid pairs of length 2..4 from the enumerated family (14 pairs) x {+,-,*,/} (and ** with exponents 2, 3) x sampling {min,left,right,float} x unit pairs (sampled 700 configs); scalar and vector operands',
+          'thorough': 'grids of length up to 6, all 16 unit pairs, 2000 configs'}
 ASSUMPTIONS = ['interpolation method linear (quadratic/cubic spline fitting is behind scipy and outside the claim)', 'power: integer exponents 2 and 3 (a symbolic exponent has no polynomial normal form)',
                'division: the divisor spectrum and the fill value are non-zero', 'operands not in nm: unit conversion in floating point may move a range edge by one ulp (the real code then uses the fill value at that edge sample); excluded under A-REAL, translator validation is skipped for those configurations', 'for units other than nm, grid pairs whose range is an exact multiple of the sampling are skipped: ceil() of the float ratio may land on either side (rounding tie)']
 STUBS = ['scipy.interpolate.interp1d(kind="linear", bounds_error=False, fill_value=v): piecewise-linear interpolant, v outside the range']
@@ -26,7 +26,7 @@ def configs(tier, seed):
     rng = random.Random(1313 + seed)
     out = []
     units = ['nm', 'um', 'm', 'angstrom']
-    want = 220 if tier == 'quick' else 1500
+    want = 700 if tier == 'quick' else 2000
     for _ in range(want):
         a, b = rng.choice(PAIRS)
         out.append({'a': a, 'b': b, 'op': rng.choice(['add', 'subtract', 'multiply', 'divide']),
